@@ -150,7 +150,7 @@ func init() {
 			"total bonded tokens fit uint64; the withdrawal id is below 2^64-1",
 		},
 		NotDecided: []string{
-			"DecodeDepositReportValue truncates amount/10^12 with big.Int.Int64(): for a reported amount of 2^63 * 10^12 or more the coin amount wraps (NewInt64Coin panics on a negative one): the decoded-amount clauses are stated for amounts below that bound, the panic obligations are not claimed",
+			"(decided since the fix 4ede408: the decoded amount and tip are the reported fields divided by 10^12 for every reported size; before it, big.Int.Int64() kept the low 64 bits)",
 			"that no reporter can create an aggregate for a withdrawal query as a whole-system statement: decided are that PreventBridgeWithdrawalReport rejects every query data of the form abi.encode(\"TRBBridge\", abi.encode(false, id)) and that SubmitValue rejects what it rejects; the other writers of Aggregates (SetAggregate via SetAggregatedReport) only aggregate submitted reports",
 			"the exact amount minted by a batch of claims (decided: every listed deposit passes through ClaimDeposit once, an already claimed or repeated id fails the batch, no unlisted deposit is marked)",
 		},
